@@ -299,7 +299,7 @@ def run(ctx):
         fn = rng.choice(ALL_FAMS)
         ml, mi = rng.choice(SIZES)
         u = rng.choice([8, 20, 40])
-        mode = rng.choice({"O": ["none-int", "str", "int"]}.get(fn[0], [None, "extreme"] if fn != "fs" else [None]))
+        mode = rng.choice({"O": ["none-int", "str", "int"]}.get(fn[0], [None, "extreme"]))
         calls = gen_history(rng, kind, u, rng.choice([10, 25, 50, 90]), avoid0=(mode == "none-int"))
         calls = [c for c in calls if c[0] not in ("keys", "items")] + [("len",)]
         cuts = {}
